@@ -201,6 +201,22 @@ func c11(c *h.Ctx) {
 	r := c.R
 	zero := aacCfg{}
 
+	// Correspondence mismatches are collected and reported after the whole run, so that the harness's
+	// violation cap is filled by property violations (Hold) first when a change breaks both.
+	type mismatch struct{ clause, input, impl, model string }
+	var pending []mismatch
+	eq := func(clause, input, impl, model string) {
+		c.Trace()
+		if impl != model && len(pending) < 5 {
+			pending = append(pending, mismatch{clause, input, impl, model})
+		}
+	}
+	defer func() {
+		for _, m := range pending {
+			c.Fail("correspondence", m.clause, m.input, m.impl, m.model)
+		}
+	}()
+
 	// 0. fixed regression inputs of repaired defects (always first).
 	{
 		// F11: SampleRateIndexForbidden.ToHz() panicked (table one element short).
@@ -208,7 +224,7 @@ func c11(c *h.Ctx) {
 			in := fmt.Sprintf("aac.enum %d", v)
 			impl := aacEnum(v)
 			c.Hold(!strings.Contains(impl, "panic"), "enum.total", in, impl, "no panic")
-			c.Eq("enum", in, impl, c.O.Call("aac.enum", fmt.Sprint(v)))
+			eq("enum", in, impl, c.O.Call("aac.enum", fmt.Sprint(v)))
 			c.Case("regression/F11", in, true)
 		}
 		// F10: CRC-protected frame; raw was taken as frame_length-7 (2 bytes of the next frame leaked / error at end).
@@ -221,7 +237,7 @@ func c11(c *h.Ctx) {
 			in := "adts.dec 0.0.0 " + h.Hex(data)
 			impl, raw, left, _ := adtsDec(zero, data)
 			c.Hold(impl != "panic" && bytes.Equal(raw, []byte{1, 2, 3}) && bytes.Equal(left, tail), "spec.decode", in, impl, "ok 010203 "+h.Hex(tail)+" 2.4.2")
-			c.Eq("adts.dec", in, impl, c.O.Call("adts.dec", "0.0.0", h.Hex(data)))
+			eq("adts.dec", in, impl, c.O.Call("adts.dec", "0.0.0", h.Hex(data)))
 			c.Case("regression/F10", in, true)
 		}
 	}
@@ -230,10 +246,13 @@ func c11(c *h.Ctx) {
 	for v := 0; v < 256; v++ {
 		in := fmt.Sprintf("aac.enum %d", v)
 		impl := aacEnum(uint8(v))
-		c.Eq("enum", in, impl, c.O.Call("aac.enum", fmt.Sprint(v)))
+		eq("enum", in, impl, c.O.Call("aac.enum", fmt.Sprint(v)))
 		c.Hold(!strings.Contains(impl, "panic"), "enum.total", in, impl, "no panic")
 		iso := c.O.Call("aac.spec.hz", fmt.Sprint(v))
-		hz := strings.Fields(impl)[2]
+		hz := "?"
+		if fs := strings.Fields(impl); len(fs) > 2 {
+			hz = fs[2]
+		}
 		if iso != "none" {
 			c.Hold(hz == "ok:"+iso, "sr_table", in, hz, "ok:"+iso)
 		} else {
@@ -247,7 +266,7 @@ func c11(c *h.Ctx) {
 		data := append([]byte{byte(b0), byte(b1)}, tail...)
 		in := fmt.Sprintf("asc.dec %s %s", st, h.Hex(data))
 		impl := ascDec(st, data)
-		c.Eq("asc.dec", in, impl, c.O.Call("asc.dec", st.String(), h.Hex(data)))
+		eq("asc.dec", in, impl, c.O.Call("asc.dec", st.String(), h.Hex(data)))
 		want := aacCfg{uint8(b0 >> 3), uint8((b0&7)<<1 | b1>>7), uint8((b1 >> 3) & 15)}
 		acc := aacAccepted(want)
 		if acc {
@@ -283,7 +302,7 @@ func c11(c *h.Ctx) {
 		st := aacCfg{2, 4, 2}
 		in := fmt.Sprintf("asc.dec %s %s", st, h.Hex(d))
 		impl := ascDec(st, d)
-		c.Eq("asc.dec", in, impl, c.O.Call("asc.dec", st.String(), h.Hex(d)))
+		eq("asc.dec", in, impl, c.O.Call("asc.dec", st.String(), h.Hex(d)))
 		c.Hold(impl == "err "+st.String(), "asc.short", in, impl, "err "+st.String())
 		c.Case("asc/short", in, true)
 	}
@@ -294,7 +313,7 @@ func c11(c *h.Ctx) {
 				k := aacCfg{uint8(o), uint8(s), uint8(ch)}
 				in := "asc.enc " + k.String()
 				m, out := ascEnc(k)
-				c.Eq("asc.enc", in, m, c.O.Call("asc.enc", k.String()))
+				eq("asc.enc", in, m, c.O.Call("asc.enc", k.String()))
 				if aacAccepted(k) {
 					exp := []byte{byte(o<<3 | s>>1), byte((s&1)<<7 | ch<<3)}
 					c.Hold(bytes.Equal(out, exp), "asc.layout", in, m, "ok "+h.Hex(exp))
@@ -311,7 +330,7 @@ func c11(c *h.Ctx) {
 		k := aacCfg{uint8(r.Intn(256)), uint8(r.Intn(256)), uint8(r.Intn(256))}
 		in := "asc.enc " + k.String()
 		m, _ := ascEnc(k)
-		c.Eq("asc.enc", in, m, c.O.Call("asc.enc", k.String()))
+		eq("asc.enc", in, m, c.O.Call("asc.enc", k.String()))
 		c.Hold(aacAccepted(k) || m == "err", "asc.reject", in, m, "err")
 		c.Case("asc/enc-wide", in, true)
 	}
@@ -328,9 +347,21 @@ func c11(c *h.Ctx) {
 					field, raw := payload(r, n)
 					in := fmt.Sprintf("adts.enc %s %s", k, field)
 					enc, out := adtsEnc(k, raw)
-					c.Eq("adts.enc", in, enc, c.O.Call("adts.enc", k.String(), field))
-					// wire = the ISO writer's bytes (MPEG-4 id, no CRC, buffer fullness 0x03f as the library writes it)
+					eq("adts.enc", in, enc, c.O.Call("adts.enc", k.String(), field))
+					// wire = the ISO writer's bytes for this profile/index/channels/raw. The bits the standard leaves
+					// to the writer (ID, protection, private, original, home, copyright, buffer fullness, CRC) are read
+					// from the library's output; everything else - sync word, layer, field positions, the 13-bit length,
+					// number_of_raw_data_blocks = 0 - must then coincide byte for byte.
 					sf := specFrame{id: 0, pa: 1, prof: int(aacProfileOf(o)), sfi: s, ch: ch, bf: 63, raw: field}
+					if len(out) >= 7 {
+						sf.id, sf.pa = int(out[1]>>3&1), int(out[1]&1)
+						sf.priv, sf.orig, sf.home = int(out[2]>>1&1), int(out[3]>>5&1), int(out[3]>>4&1)
+						sf.cb, sf.cs = int(out[3]>>3&1), int(out[3]>>2&1)
+						sf.bf = int(out[5]&0x1f)<<6 | int(out[6]>>2)
+						if sf.pa == 0 && len(out) >= 9 {
+							sf.crc = int(out[7])<<8 | int(out[8])
+						}
+					}
 					sw := sf.write(c)
 					c.Hold(bytes.Equal(out, sw), "adts.is_spec", in, h.Trunc(h.Hex(out), 64), h.Trunc(h.Hex(sw), 64))
 					// round trip: same raw, nothing left, reports profile / index / channels
@@ -343,14 +374,33 @@ func c11(c *h.Ctx) {
 					okrt := strings.HasPrefix(dec, "ok ") && bytes.Equal(draw, raw) && len(dleft) == 0 && after == exp &&
 						uint8(aac.ObjectType(after.o).ToProfile()) == uint8(aac.ObjectType(o).ToProfile())
 					c.Hold(okrt, "adts.roundtrip", in, h.Trunc(dec, 120), fmt.Sprintf("ok <raw %d bytes> - %s", n, exp))
-					c.Eq("adts.dec", "adts.dec "+st.String()+" <encoded> of "+in, dec,
-						c.O.Call("adts.dec", st.String(), h.Hex(out[:7])+"+"+field))
+					eq("adts.dec", "adts.dec "+st.String()+" <encoded> of "+in, dec,
+						c.O.Call("adts.dec", st.String(), h.Hex(out)))
 					c.Case(fmt.Sprintf("enc/obj=%d/len=%d", o, n), in, true)
 				}
 				combo++
 			}
 		}
 	}
+	// every raw length 1..8184 (the 13-bit length straddles bytes 3..5): round trip on the implementation;
+	// thorough also compares every frame with the model's encoder. Configs rotate with the length.
+	for n := 1; n <= 8184; n++ {
+		k := aacCfg{aacObjs[n%5], uint8(1 + n%12), uint8(1 + n%7)}
+		seed := uint32(r.U64())
+		raw := h.LCGBytes(n, seed)
+		in := fmt.Sprintf("adts.enc %s p:%d:%d", k, n, seed)
+		enc, out := adtsEnc(k, raw)
+		dec, draw, dleft, after := adtsDec(zero, out)
+		exp := aacCfg{aacProfileOf(k.o) + 1, k.s, k.c}
+		okrt := strings.HasPrefix(enc, "ok ") && len(out) == n+7 && strings.HasPrefix(dec, "ok ") && bytes.Equal(draw, raw) &&
+			len(dleft) == 0 && after == exp
+		c.Hold(okrt, "adts.roundtrip", in, h.Trunc(dec, 120), fmt.Sprintf("ok <raw %d bytes> - %s", n, exp))
+		if c.Thorough() || n%64 == 0 {
+			eq("adts.enc", in, enc, c.O.Call("adts.enc", k.String(), fmt.Sprintf("p:%d:%d", n, seed)))
+		}
+		c.Case(fmt.Sprintf("enc/every-length/%dxx", n/1000), in, true)
+	}
+
 	// encoder outside the property's domain (correspondence only): rejected configs, empty and oversized raw.
 	for o := 0; o < 32; o++ {
 		for s := 0; s < 16; s++ {
@@ -361,7 +411,7 @@ func c11(c *h.Ctx) {
 				}
 				in := fmt.Sprintf("adts.enc %s ab", k)
 				enc, _ := adtsEnc(k, []byte{0xab})
-				c.Eq("adts.enc", in, enc, c.O.Call("adts.enc", k.String(), "ab"))
+				eq("adts.enc", in, enc, c.O.Call("adts.enc", k.String(), "ab"))
 				c.Hold(aacAccepted(k) || enc == "err", "adts.enc_reject", in, enc, "err")
 				c.Case(fmt.Sprintf("enc/grid/accepted=%v", aacAccepted(k)), in, true)
 			}
@@ -372,7 +422,7 @@ func c11(c *h.Ctx) {
 		field, raw := payload(r, n)
 		in := fmt.Sprintf("adts.enc %s %s", k, field)
 		enc, _ := adtsEnc(k, raw)
-		c.Eq("adts.enc", in, h.Trunc(enc, 200), h.Trunc(c.O.Call("adts.enc", k.String(), field), 200))
+		eq("adts.enc", in, h.Trunc(enc, 200), h.Trunc(c.O.Call("adts.enc", k.String(), field), 200))
 		c.Case("enc/outside-domain-lengths", in, true)
 	}
 
@@ -407,7 +457,7 @@ func c11(c *h.Ctx) {
 								c.Hold(ok, "spec.decode", in, h.Trunc(dec, 120), fmt.Sprintf("ok <raw %d bytes> %s %s", n, h.Hex(tail), f.cfg()))
 							} // headers outside the accepted set: correspondence only (the model rejects them too)
 							hl := f.hdrLen()
-							c.Eq("adts.dec", "adts.dec 0.0.0 of "+in, dec,
+							eq("adts.dec", "adts.dec 0.0.0 of "+in, dec,
 								c.O.Call("adts.dec", "0.0.0", h.Hex(w[:hl])+"+"+field+"+"+h.Hex(tail)))
 							c.Case(fmt.Sprintf("spec/id=%d,pa=%d,accepted=%v/len=%d", id, pa, f.accepted(), n), in, true)
 						}
@@ -464,7 +514,7 @@ func c11(c *h.Ctx) {
 			ok = bytes.Equal(got[j], raws[j]) && bytes.Equal(lefts[j], data[bounds[j]:]) && (len(lefts[j]) == 0 || startsWithSync(lefts[j]))
 		}
 		c.Hold(ok, "adts.concat", in, h.Trunc(res, 160), fmt.Sprintf("%d frames, each remainder at the next sync word", k))
-		c.Eq("adts.stream", in, res, c.O.Call("adts.stream", "0.0.0", h.Hex(data)))
+		eq("adts.stream", in, res, c.O.Call("adts.stream", "0.0.0", h.Hex(data)))
 		c.Case(fmt.Sprintf("stream/frames=%d", k), in+fmt.Sprint(len(data)), true)
 	}
 
@@ -472,7 +522,7 @@ func c11(c *h.Ctx) {
 	mal := func(bucket string, st aacCfg, data []byte) {
 		in := fmt.Sprintf("adts.dec %s %s", st, h.Hex(data))
 		dec, _, _, _ := adtsDec(st, data)
-		c.Eq("adts.dec", h.Trunc(in, 300), dec, c.O.Call("adts.dec", st.String(), h.Hex(data)))
+		eq("adts.dec", h.Trunc(in, 300), dec, c.O.Call("adts.dec", st.String(), h.Hex(data)))
 		c.Hold(!strings.HasPrefix(dec, "panic"), "no_panic", h.Trunc(in, 300), h.Trunc(dec, 100), "ok|err")
 		c.Case(bucket+"/"+strings.Fields(dec)[0], in, true)
 	}
@@ -534,7 +584,7 @@ func c11(c *h.Ctx) {
 			data := append(append([]byte{}, hdr...), h.LCGBytes(66000, seed)...)
 			in := "adts.dec 0.0.0 " + field
 			dec, _, _, _ := adtsDec(zero, data)
-			c.Eq("adts.dec", in, dec, c.O.Call("adts.dec", "0.0.0", field))
+			eq("adts.dec", in, dec, c.O.Call("adts.dec", "0.0.0", field))
 			c.Hold(!strings.HasPrefix(dec, "panic"), "no_panic", in, h.Trunc(dec, 100), "ok|err")
 			c.Case("malformed/short-frame-length-on-64k-input", in, true)
 		}
